@@ -198,6 +198,26 @@ HARNESSES = [
                "for lengths 5..19 at mixed offsets (prologue, up to two slice-by-8 steps, epilogue)"),
 ]
 
+import importlib.util as _ilu, os as _os
+def _jscan():
+    """journal recovery's use of the block checksums (source harness/C03/scan.c, v2 checksums): a descriptor / revoke block whose
+    checksum does not verify is a checksum FAILURE unless it is stale by the commit-time rule (older, not equal)"""
+    p = _os.path.join(_os.path.dirname(_os.path.abspath(__file__)), "..", "C03", "spec.py")
+    sp = _ilu.spec_from_file_location("spec_C03_for_C14", p)
+    m = _ilu.module_from_spec(sp)
+    sp.loader.exec_module(m)
+    for h in m.HARNESSES:
+        if h["name"] == "scan":
+            d = dict(h)
+            d["name"] = "jscan"
+            d["src"] = "../C03/scan.c"
+            d["configs"] = [c for c in h["configs"] if c.get("FEAT_CSUM") == 2 and "FEAT_ASYNC" not in c and c.get("_tier") != "thorough"][:1]
+            if not d["configs"]:
+                raise RuntimeError("no v2 scan config in C03")
+            return [d]
+    raise RuntimeError("C03 scan harness missing")
+HARNESSES += _jscan()
+
 MANIFEST = {
     "text": "Bounded-exhaustive checksum trace: for every metadata object type of csum.c, with the object, its "
             "identity terms and the seed fully symbolic, the real set/verify routines feed the CRC exactly the "
